@@ -22,6 +22,7 @@ import TlsModel.RecordToy
     fifo splitA rsA splitB rsB op...     -> one token per op
          ops: wA:<hex> wB:<hex> rA:<max|n>:<min> rB:<max|n>:<min> sA:<n> sB:<n> (conn.recordSize = n)
               vA:<hex>:<r0,r1,..> vB:… (a write cut with record size r_i for its i-th record)
+              uA:<hex> uB:<hex> (conn.unread(b))
               the rs arguments are "<effective record size>/<negotiated send limit>"
          replies: w<comma separated fragment lengths> | d<hex> | stall | alert<desc> | unmodelled | closed
 -/
@@ -108,6 +109,13 @@ def fifoStep (c : Conn idCodec idCodec) (tok : String) : Option (Conn idCodec id
     let fr ← fragmentsVar c.b.split (fun i => l.getD i last) d
     let (_, rs) ← protAll idProt 23 c.b.wr fr
     some ({ c with ba := c.ba ++ rs, writtenB := c.writtenB ++ d }, "w" ++ lensOut rs)
+  | ["uA", h] => do
+    -- conn.unread(b) with arbitrary bytes: `_readBuffer = b + _readBuffer`
+    let b ← ofHex h
+    some ({ c with a := { c.a with buf := b ++ c.a.buf } }, "u")
+  | ["uB", h] => do
+    let b ← ofHex h
+    some ({ c with b := { c.b with buf := b ++ c.b.buf } }, "u")
   | ["sA", n] => do some (step c (.setSizeA (← n.toNat?)), "s")
   | ["sB", n] => do some (step c (.setSizeB (← n.toNat?)), "s")
   | ["rA", mx, mn] => do
